@@ -28,7 +28,7 @@ static void GC_Mark_Stack(struct GC* gc);
 
 #define MAXOBJ 512
 #define MAXOWN 8
-#define MAXW 64
+#define MAXW 256
 
 static uint64_t BASEH;                     /* B: hash of the arena base */
 static int nobj;
